@@ -13,6 +13,11 @@ Nodes
                                                helper values joined with "/" (``up`` = number of
                                                ``.parentloop`` hops)
 ``{"t":"brk"|"cnt","at":k}``                   ``{% if forloop.index == k %}{% break|continue %}{% endif %}``
+                                               (``at`` None = unconditional ``{% break %}``)
+``{"t":"silent","s":src}``                     a tag that writes nothing (``{% assign z = 1 %}``)
+``{"t":"wrap","w":if|unless|ifelse|elsif|case|caseelse|capture,"body":[...]}``
+                                               a block tag whose (constant) condition selects ``body``;
+                                               ``capture`` captures the body and prints the variable
 ``{"t":"for","var","coll","limit","offset","rev","body","else"}``
 ``{"t":"tablerow","var","coll","cols","limit","offset","body"}``
 
@@ -46,6 +51,13 @@ tablerow   property statement (row/column structure and helpers consistent with 
            items for every cols value); tag_reference.md#tablerow, #cols ("By default ... one row
            with one column for each item"), #tablerowloop table.  The docs print the HTML
            pretty-printed, so whitespace between tags is not part of the oracle.
+cols<=0    tag_reference.md#cols says what ``cols`` does for a number of columns and what happens
+           when it is absent; it is silent on zero, negative, nil and non-numeric values.  The
+           statement still requires structure and helpers to be consistent with the visited items
+           "for every cols value", so for those values only layout-free consistency is checked
+           (``check_free_tablerow``): every visited item in exactly one cell, in order; rows
+           numbered 1.. and cells numbered 1.. within their rendered row; col/col0/col_first/row
+           agree with the rendered cell and row; col_last of a non-final cell iff the row ends there.
 items      array -> its elements; hash -> (key, value) pairs; range -> increasing integers
            (tag_reference.md#for); string with string_sequences -> its characters
            (environment.md#string-sequences).  String WITHOUT string_sequences: the docs say it
@@ -90,7 +102,15 @@ def helpers(obj: str, fields: list[str], up: int = 0) -> dict[str, Any]:
     return {"t": "h", "obj": obj, "up": up, "fields": list(fields)}
 
 
-def arg(v: Optional[int], f: str = "lit") -> Optional[dict[str, Any]]:
+def wrap(w: str, body: list[Any]) -> dict[str, Any]:
+    return {"t": "wrap", "w": w, "body": body}
+
+
+def silent(s: str) -> dict[str, Any]:
+    return {"t": "silent", "s": s}
+
+
+def arg(v: Any, f: str = "lit") -> Optional[dict[str, Any]]:
     return None if v is None else {"v": v, "f": f}
 
 
@@ -173,7 +193,11 @@ def to_source(prog: dict[str, Any]) -> tuple[str, dict[str, Any]]:
             return a  # continue / 'continue'
         v, f = a["v"], a["f"]
         if f == "lit":
-            return str(v)
+            return "nil" if v is None else f"'{v}'" if isinstance(v, str) else str(v)
+        if f == "missing":
+            name = f"p{ctr[0]}"
+            ctr[0] += 1
+            return name  # a variable that is not passed to render
         if f == "strlit":
             return f"'{v}'"
         name = f"p{ctr[0]}"
@@ -202,8 +226,31 @@ def to_source(prog: dict[str, Any]) -> tuple[str, dict[str, Any]]:
         if t == "h":
             path = n["obj"] + ".parentloop" * n["up"]
             return "/".join(f"{{{{{path}.{f}}}}}" for f in n["fields"])
+        if t == "silent":
+            return str(n["s"])
+        if t == "wrap":
+            w, b = n["w"], p_nodes(n["body"])
+            if w == "if":
+                return "{% if true %}" + b + "{% endif %}"
+            if w == "unless":
+                return "{% unless false %}" + b + "{% endunless %}"
+            if w == "ifelse":
+                return "{% if false %}{% else %}" + b + "{% endif %}"
+            if w == "elsif":
+                return "{% if false %}{% elsif true %}" + b + "{% endif %}"
+            if w == "case":
+                return "{% case 1 %}{% when 1 %}" + b + "{% endcase %}"
+            if w == "caseelse":
+                return "{% case 2 %}{% when 1 %}{% else %}" + b + "{% endcase %}"
+            if w == "capture":
+                name = f"cap{ctr[0]}"
+                ctr[0] += 1
+                return f"{{% capture {name} %}}" + b + f"{{% endcapture %}}{{{{{name}}}}}"
+            raise AssertionError(w)
         if t in ("brk", "cnt"):
             tag = "break" if t == "brk" else "continue"
+            if n["at"] is None:
+                return f"{{% {tag} %}}"
             return f"{{% if forloop.index == {n['at']} %}}{{% {tag} %}}{{% endif %}}"
         if t == "for":
             s = f"{{% for {n['var']} in {p_coll(n['coll'])}"
@@ -317,9 +364,13 @@ class Ref:
             self.out.append(fr["item"])
         elif t == "h":
             self.out.append(self._helper(n, frames))
+        elif t == "silent":
+            pass
+        elif t == "wrap":
+            self.run(n["body"], frames)
         elif t in ("brk", "cnt"):
             fr = [f for f in frames if f["t"] == "for"][-1]
-            if fr["i0"] + 1 == n["at"]:
+            if n["at"] is None or fr["i0"] + 1 == n["at"]:
                 self.stats["interrupts_fired"] += 1
                 raise _Break() if t == "brk" else _Continue()
         elif t == "for":
@@ -388,6 +439,8 @@ def has_default_string(prog: dict[str, Any]) -> bool:
                     return True
                 if walk(n["body"]) or (n.get("else") and walk(n["else"])):
                     return True
+            elif n["t"] == "wrap" and walk(n["body"]):
+                return True
         return False
 
     return walk(prog["nodes"])
@@ -407,7 +460,7 @@ def normalise(out: str) -> str:
 
 
 def matches(want: str, got: str) -> bool:
-    got = normalise(got)
+    got, want = normalise(got), normalise(want)
     if EMPTY_TABLE not in want:
         return want == got
     rx = _EMPTY_TABLE_RE.join(re.escape(p) for p in want.split(EMPTY_TABLE))
@@ -432,6 +485,9 @@ def strip_helpers(prog: dict[str, Any]) -> dict[str, Any]:
                 n["body"] = walk(n["body"])
                 if n.get("else") is not None:
                     n["else"] = walk(n["else"])
+            elif n["t"] == "wrap":
+                n = dict(n)
+                n["body"] = walk(n["body"])
             out.append(n)
         return out
 
@@ -448,6 +504,8 @@ def loops_of(prog: dict[str, Any]) -> list[dict[str, Any]]:
                 walk(n["body"], depth + 1)
                 if n.get("else"):
                     walk(n["else"], depth)
+            elif n["t"] == "wrap":
+                walk(n["body"], depth)
 
     walk(prog["nodes"], 1)
     return acc
@@ -484,10 +542,133 @@ def features(prog: dict[str, Any]) -> list[str]:
                 if n.get("rev"):
                     fs.add("reversed")
                 if n.get("cols") is not None:
-                    fs.add("cols>len" if n["cols"]["v"] > ln else "cols")
+                    fs.add(cols_class(n["cols"], ln))
+                if t == "for" and not writes(n["body"]):
+                    fs.add("blank-body")
                 walk(n["body"], depth + 1)
                 if n.get("else"):
                     walk(n["else"], depth)
+            elif t == "wrap":
+                fs.add("wrapped")
+                walk(n["body"], depth)
 
     walk(prog["nodes"], 1)
     return sorted(fs)
+
+
+def writes(ns: list[Any]) -> bool:
+    """Can these nodes write anything but whitespace?"""
+    for n in ns:
+        t = n["t"]
+        if t in ("item", "h", "tablerow") or (t == "text" and n["s"].strip()):
+            return True
+        if t == "for" and (writes(n["body"]) or writes(n.get("else") or [])):
+            return True
+        if t == "wrap" and writes(n["body"]):
+            return True
+    return False
+
+
+def cols_documented(a: Optional[dict[str, Any]]) -> bool:
+    """tag_reference.md#cols defines the layout only for an absent cols or a number of columns >= 1."""
+    return a is None or (a["f"] in ("lit", "var") and type(a["v"]) is int and 1 <= a["v"] < HUGE)
+
+
+def cols_number_class(a: dict[str, Any]) -> str:
+    """The plain numeric reading of a cols value (truncating): zero / negative / positive / not-a-number."""
+    v = a["v"]
+    if a["f"] == "missing" or v is None or isinstance(v, bool):
+        return "not-a-number"
+    if isinstance(v, str):
+        try:
+            v = int(v)
+        except ValueError:
+            return "not-a-number"
+    v = int(v)
+    return "zero" if v == 0 else "negative" if v < 0 else "positive"
+
+
+def cols_class(a: dict[str, Any], ln: int) -> str:
+    v, f = a["v"], a["f"]
+    if f == "missing":
+        return "cols=undefined"
+    if v is None:
+        return "cols=nil"
+    if isinstance(v, bool):
+        return "cols=bool"
+    if isinstance(v, str):
+        return "cols=numeric-string" if v.lstrip("-").isdigit() else "cols=non-numeric"
+    if isinstance(v, float):
+        return "cols=float"
+    if v == 0:
+        return "cols==0"
+    if v < 0:
+        return "cols<0"
+    if v >= HUGE:
+        return "cols=huge"
+    return "cols>len" if v > ln else "cols"
+
+
+# ---------------------------------------------------------------------------
+# layout-free consistency of ONE top-level tablerow (cols values the docs are silent on)
+# ---------------------------------------------------------------------------
+_ROW = re.compile(r'<tr class="row(\d+)">((?:<td class="col\d+">[^<>]*</td>)*)</tr>')
+_CELL = re.compile(r'<td class="col(\d+)">([^<>]*)</td>')
+
+
+def free_body(var: str, c: dict[str, Any]) -> list[Any]:
+    return [item(var, c), text(":"), helpers("tablerowloop", TR_FIELDS)]
+
+
+def check_free_tablerow(prog: dict[str, Any], got: str) -> tuple[list[tuple[str, str]], Counter[str]]:
+    """-> ([(clause, message)], stats).  ``prog`` is a single tablerow whose body is ``free_body``."""
+    (n,) = prog["nodes"]
+    assert n["t"] == "tablerow"
+    ref = Ref(prog)
+    kept = ref._segment(n)
+    stats: Counter[str] = Counter({"loops": 1, "tablerows": 1, "kept": len(kept)})
+    out = normalise(got)
+    rows = [(int(m.group(1)), [(int(c.group(1)), c.group(2)) for c in _CELL.finditer(m.group(2))])
+            for m in _ROW.finditer(out)]
+    bad: list[tuple[str, str]] = []
+    if "".join(m.group(0) for m in _ROW.finditer(out)) != out:
+        return [("structure", "the output is not a sequence of <tr class=rowR> elements holding <td class=colC> cells")], stats
+    cells = [(r, c, txt, ri, ci, len(cs)) for ri, (r, cs) in enumerate(rows) for ci, (c, txt) in enumerate(cs)]
+    if not kept:
+        stats["empty"] = stats["tablerow_empty"] = 1
+        if cells:
+            bad.append(("items", f"{len(cells)} cell(s) rendered although no item is visited"))
+        return bad, stats
+    stats["rows"] = len(rows)
+    seen = [txt.split(":", 1)[0] for *_x, txt, _ri, _ci, _n in cells]
+    if seen != kept:
+        return [("items", f"cells hold {seen}, visited items are {kept}")], stats
+    if [r for r, _ in rows] != list(range(1, len(rows) + 1)) or any(not cs for _, cs in rows):
+        bad.append(("structure", f"rows are {[(r, len(cs)) for r, cs in rows]}: not numbered 1.. or an empty row"))
+    ln = len(kept)
+    for i0, (r, c, txt, ri, ci, nrow) in enumerate(cells):
+        if c != ci + 1:
+            bad.append(("structure", f"cell {i0 + 1} is the {ci + 1}. cell of its row but has class col{c}"))
+        vals = dict(zip(TR_FIELDS, txt.split(":", 1)[1].split("/")))
+        want = {"index": str(i0 + 1), "index0": str(i0), "rindex": str(ln - i0), "rindex0": str(ln - i0 - 1),
+                "first": _b(i0 == 0), "last": _b(i0 == ln - 1), "length": str(ln)}
+        for k, w in want.items():
+            if vals.get(k) != w:
+                bad.append(("helpers", f"cell {i0 + 1}: tablerowloop.{k} is {vals.get(k)}, visited items say {w}"))
+        if vals.get("col") != str(c):
+            bad.append(("col", f"cell {i0 + 1}: tablerowloop.col is {vals.get('col')} inside <td class=col{c}>"))
+        if vals.get("col0") != str(c - 1):
+            bad.append(("col0", f"cell {i0 + 1}: tablerowloop.col0 is {vals.get('col0')} inside <td class=col{c}>"))
+        if vals.get("col_first") != _b(ci == 0):
+            bad.append(("col_first", f"cell {i0 + 1}: col_first is {vals.get('col_first')} but it is the "
+                                     f"{ci + 1}. cell of its rendered row"))
+        if i0 != ln - 1 and vals.get("col_last") != _b(ci == nrow - 1):
+            bad.append(("col_last", f"cell {i0 + 1}: col_last is {vals.get('col_last')} but the rendered row "
+                                    f"{'ends' if ci == nrow - 1 else 'continues'} after it"))
+        if vals.get("row") != str(r):
+            bad.append(("row", f"cell {i0 + 1}: tablerowloop.row is {vals.get('row')} inside <tr class=row{r}>"))
+    # one message per clause is enough
+    first: dict[str, str] = {}
+    for k, msg in bad:
+        first.setdefault(k, msg)
+    return list(first.items()), stats
